@@ -132,6 +132,25 @@ func (w *redactor) Close() error {
 	return nil
 }
 
+// appendSecrets appends the string form of v, if v is secret, and of every secret value nested inside v: all of them
+// are part of the text that v contributes to a command line.
+func appendSecrets(secrets []string, v esc.Value) []string {
+	if v.Secret {
+		secrets = append(secrets, v.ToString(false))
+	}
+	switch pv := v.Value.(type) {
+	case []esc.Value:
+		for _, e := range pv {
+			secrets = appendSecrets(secrets, e)
+		}
+	case map[string]esc.Value:
+		for _, e := range pv {
+			secrets = appendSecrets(secrets, e)
+		}
+	}
+	return secrets
+}
+
 func newEnvRunCmd(envcmd *envCommand) *cobra.Command {
 	var interactive bool
 	var duration time.Duration
@@ -217,12 +236,8 @@ func newEnvRunCmd(envcmd *envCommand) *cobra.Command {
 								}
 							}
 							if val, ok := getEnvValue(envV, path); ok {
-								str := val.ToString(false)
-								if val.Secret {
-									secrets = append(secrets, str)
-								}
-
-								arg.WriteString(str)
+								secrets = appendSecrets(secrets, *val)
+								arg.WriteString(val.ToString(false))
 							}
 						}
 					}
